@@ -30,7 +30,7 @@ TOL = 1e-8
 MODULES = ['Non_diagonal', 'Rosquist_Jantzen', 'Collins_Stewart', 'Harvey_Tsoubelis', 'Conformally_flat',
            'Schwarzschild_isotropic', 'Szekeres', 'LCDM', 'EdS']
 DOMAIN = {  # (t range, xyz range) away from coordinate singularities
-    'Non_diagonal': ((1.2, 3.0), (-4.0, 4.0)), 'Rosquist_Jantzen': ((0.8, 3.0), (-2.0, 2.0)),
+    'Non_diagonal': ((1.2, 3.0), (-10.0, 10.0)), 'Rosquist_Jantzen': ((0.8, 3.0), (-2.0, 2.0)),
     'Collins_Stewart': ((0.8, 3.0), (-2.0, 2.0)), 'Harvey_Tsoubelis': ((0.8, 3.0), (-2.0, 2.0)),
     'Conformally_flat': ((0.0, 1.0), (-1.5, 1.5)), 'Schwarzschild_isotropic': ((0.0, 1.0), (1.0, 4.0)),
     'Szekeres': ((2000.0, 9000.0), (-4.0, 4.0)), 'LCDM': ((2000.0, 9000.0), (-4.0, 4.0)), 'EdS': ((2000.0, 9000.0), (-4.0, 4.0)),
@@ -72,9 +72,17 @@ def load(name, F):
     return RebMod(real, over), real
 
 
-def point(name, rng, F):
+def point(name, rng, F, strata=None):
+    """strata = (k, n, perms): Latin-hypercube sampling -- the k-th of n points takes, on every axis, a different one of
+    n equal slices of the range, so that every part of the domain of every coordinate is visited (a region-dependent
+    error, e.g. a lost sign over half a period, cannot hide between the points)"""
     (t0, t1), (x0, x1) = DOMAIN[name]
-    vals = [rng.uniform(t0, t1)] + [rng.uniform(x0, x1) for _ in range(3)]
+    if strata is None:
+        vals = [rng.uniform(t0, t1)] + [rng.uniform(x0, x1) for _ in range(3)]
+    else:
+        k, n, perms = strata
+        rngs = [(t0, t1)] + [(x0, x1)] * 3
+        vals = [lo + (hi - lo) * (perms[ax][k] + rng.uniform(0.05, 0.95)) / n for ax, (lo, hi) in enumerate(rngs)]
     js = []
     for ax, v in enumerate(vals):
         js.append(J(F, 2, {ZERO_MI: v, tuple(1 if k == ax else 0 for k in range(NV)): 1.0}))
@@ -116,10 +124,11 @@ def module_checks(name, seed, npts):
         o = out.setdefault(label, [0.0, ''])
         if err > o[0] or not o[1]:
             o[0], o[1] = max(o[0], err), detail if err > TOL else o[1]
+    perms = [rng.sample(range(npts), npts) for _ in range(4)]
     for pt in range(npts):
         F = Field('f')
         mod, real = load(name, F)
-        vals, t, x, y, z = point(name, rng, F)
+        vals, t, x, y, z = point(name, rng, F, (pt, npts, perms))
         has = lambda n: hasattr(real, n)
         zero, one = J.const(F, 0.0), J.const(F, 1.0)
         gam = as_tensor(call(mod, 'gammadown3', t, x, y, z), (3, 3))
@@ -272,8 +281,8 @@ def run(R):
     import multiprocessing as mp
     R.assume('A1', 'A4', 'A5')
     R.trust('float64 evaluation of sin, sinh, exp, log, fractional powers, scipy.special.hyp2f1 and of sympy expressions at 40 digits')
-    npts = 6 if R.tier == 'quick' else 32
-    R.bounded.append(dict(function='aurel.solutions.*', bound=f'{npts} random points of the domain per module; residual tolerance {TOL}'))
+    npts = 8 if R.tier == 'quick' else 32
+    R.bounded.append(dict(function='aurel.solutions.*', bound=f'{npts} Latin-hypercube points of the domain per module (every coordinate range cut into {npts} slices, each visited); residual tolerance {TOL}'))
     R.notes.append('ICPertFLRW is a first-order perturbative initial condition (growth-rate fit f = Omega_m^(6/11)): not an exact solution, so (c) does not apply; (b) K = -1/2 d_t gamma holds exactly on the EdS background and is checked there for a generic perturbation Rc')
     for n in MODULES:
         mod = importlib.import_module(f'aurel.solutions.{n}')
@@ -293,14 +302,48 @@ def run(R):
             R.numeric.append(dict(obligation=f'{name} {label}', residual=worst))
             R.ob(f'solutions.{name}:{label}', name, 'numeric-ok' if ok else 'refuted', 'float64-jets', secs / (len(MODULES) * max(len(out), 1)),
                  f'worst relative residual {worst:.2e}' + ('' if ok else '; ' + detail), None if ok else [label],
-                 bounded=f'numeric: {npts} points', replay=(lambda o, name=name, label=label: native_replay(name, label)))
+                 bounded=f'numeric: {npts} points', replay=(lambda o, name=name, label=label: native_replay(name, label, o)))
     R.extra['explanation'] = ('numeric evidence: the real solution modules evaluated on float64 Taylor jets (exact differentiation, binary64 values) at '
                               f'{npts} random points per module; obligations (a)-(d) with residual tolerance {TOL}; not counted as proved')
 
 
-def native_replay(name, label):
+def constraint_replay(name, real, at):
+    """the real solution module feeding the real AurelCore (8th-order finite differences on a small grid around the
+    failing point): Hamiltonian and momentum constraints with the module's own Tdown4 -- pure library code"""
+    import aurel
+    N, h = 13, 0.02
+    par = dict(Nx=N, Ny=N, Nz=N, xmin=at['x'] - h * (N // 2), ymin=at['y'] - h * (N // 2), zmin=at['z'] - h * (N // 2), dx=h, dy=h, dz=h)
+    fd = aurel.FiniteDifference(par, boundary='no boundary', fd_order=8, verbose=False)
+    rel = aurel.AurelCore(fd, verbose=False)
+    t = at['t']
+    for key in ('gammadown3', 'Kdown3', 'alpha', 'betaup3', 'Tdown4'):
+        if hasattr(real, key):
+            rel.data[key] = np.asarray(getattr(real, key)(t, fd.x, fd.y, fd.z), dtype=float) * np.ones(fd.x.shape)
+    rel.freeze_data()
+    c = N // 2
+    kT = float(getattr(real, 'kappa', 8 * math.pi)) * np.max(np.abs(rel.data['Tdown4'][..., c, c, c]))
+    ham = abs(float(rel['Hamiltonian'][c, c, c]))
+    mom = float(np.max(np.abs(rel['Momentumup3'][:, c, c, c])))
+    scale = max(kT, float(np.max(np.abs(rel['s_RicciS'][c, c, c]))), 1e-300)
+    return ham / scale, mom / scale
+
+
+def native_replay(name, label, o=None):
     """float64 finite-difference replay on the real module (no jets): centred differences in t with step 1e-4 relative"""
     real = importlib.import_module(f'aurel.solutions.{name}')
+    if label.startswith('(c) ') and o is not None and hasattr(real, 'Tdown4'):
+        import ast as _ast
+        import re as _re
+        m = _re.search(r"at (\{[^}]*\})", getattr(o, 'detail', '') or '')
+        if m:
+            try:
+                at = _ast.literal_eval(m.group(1))
+                hres, mres = constraint_replay(name, real, at)
+                txt = (f'real aurel.solutions.{name} feeding the real AurelCore (fd_order 8, 13^3 grid, h = 0.02) at {at}: '
+                       f'|Hamiltonian| / scale = {hres:.2e}, max |Momentum^i| / scale = {mres:.2e} with the module\'s own Tdown4 (truncation level ~1e-7)')
+                return (hres > 1e-4 or mres > 1e-4), txt
+            except Exception as e:
+                return False, f'constraint replay raised {type(e).__name__}: {e}'
     (t0, t1), (x0, x1) = DOMAIN[name]
     t = 0.5 * (t0 + t1)
     xs = np.full((3, 3, 3), 0.4 * (x0 + x1) / 2 + 0.3 * (x1 - x0) / 2)
